@@ -13,7 +13,7 @@ import sys
 
 VERIF = os.path.dirname(os.path.dirname(os.path.abspath(__file__)))
 EXTRA = {  # other checks worth running for a change seeded against a property
-    "C05a": ["C06"], "C06b": ["C15"], "C15b": ["C09"], "C09b": ["C15"],
+    "C02a": ["C13"], "C05a": ["C06"], "C06b": ["C15"], "C15b": ["C09"], "C09b": ["C15"],
 }
 HISTORY = {  # what had to be strengthened before the change was caught (filled from the campaign log)
     "C01a": "missed at first: no input held the same picture twice -> added stamp_twice / copy_block mutations",
@@ -85,9 +85,13 @@ def main():
         needs = ""
         if os.path.exists(f"{dst}/NOTES.md"):
             txt = open(f"{dst}/NOTES.md").read()
-            parts = re.split(r"(?m)^#+ .*$", txt)
-            idx = 1 if sid.endswith("a") else 2
-            needs = (parts[idx] if len(parts) > idx else txt).strip()[:1500]
+            letter = "A" if sid.endswith("a") else "B"
+            m = re.search(rf"(?ms)^## Change {letter}\b(.*?)(?=^## |\Z)", txt)
+            section = (m.group(0) if m else txt).strip()
+            paras = [p.strip() for p in re.split(r"\n\s*\n", section)]
+            title = paras[0].lstrip("# ").strip() if paras else ""
+            wanted = [p for p in paras[1:] if re.search(r"(?i)manifest|needed|needs|trigger", p[:160])]
+            needs = (title + "\n\n" + "\n\n".join(wanted or paras[1:3])).strip()[:2500]
         caught = [c for c, st in status if st == "violated"]
         meta = {
             "id": sid, "property": pid, "patch": "patch.diff", "demonstration": "demo.py (argv[1] = repository root; exit 0 = property holds on the case, exit 1 = violated)",
